@@ -287,6 +287,7 @@ package vanguard
 //@   step rwStep(w.rw)
 //@   ensures[C08] 0 <= r0 && r0 <= len(data) && (r1 == nil ==> r0 == len(data))
 //@   ensures[C08] old(w.writingEnvelope) ==> r0 == len(data) && r1 == nil
+//@   ensures[C08] old(w.writingEnvelope) ==> forall k in [0, 5): w.env[k] == ite(5 - w.remainingBytes <= k && k < 5 - w.remainingBytes + len(data), data[k - (5 - w.remainingBytes)], old(w.env)[k])
 //@   ensures validEW(w) && w.rw == old(w.rw) && (old(w.rw.endWritten) ==> w.rw.endWritten)
 //@   modifies w.env, owned(w.rw.buf), #RWB
 
@@ -363,6 +364,8 @@ package vanguard
 //@   requires[C14] owned(m.buf)
 //@   ensures[C14] owned(m.buf) && (m.buf != old(m.buf) ==> !owned(old(m.buf)) && !wasOwned(m.buf))
 //@   atcall[C01] (*compressionPool).decompress: arg(0) == ite(m.isRequest, op.client.reqCompression, op.client.respCompression) && arg(2) == m.buf
+//@   track pd = (*compressionPool).decompress
+//@   ensures[C01] pd == ite(ite(m.isRequest, op.client.reqCompression, op.client.respCompression) != nil && old(blen(m.buf)) != 0, 1, 0)
 //@   ensures[C09] m.buf != nil && m.stage == old(m.stage)
 //@   ensures[C09] err != nil ==> m.buf == old(m.buf)
 //@   modifies m.buf, owned(m.buf), blen(m.buf), #LIB
@@ -372,6 +375,8 @@ package vanguard
 //@   requires[C14] owned(m.buf)
 //@   ensures[C14] owned(m.buf) && (m.buf != old(m.buf) ==> !owned(old(m.buf)) && !wasOwned(m.buf))
 //@   atcall[C01] (*compressionPool).compress: arg(0) == ite(m.isRequest, op.server.reqCompression, op.server.respCompression) && arg(2) == m.buf
+//@   track pc = (*compressionPool).compress
+//@   ensures[C01] pc == ite(ite(m.isRequest, op.server.reqCompression, op.server.respCompression) != nil, 1, 0)
 //@   ensures[C09] m.buf != nil && m.stage == old(m.stage)
 //@   ensures[C09] err != nil ==> m.buf == old(m.buf)
 //@   modifies m.buf, owned(m.buf), blen(m.buf), #LIB
@@ -379,7 +384,12 @@ package vanguard
 //@ func (*message).decode
 //@   requires m != nil && m.buf != nil && validOp(op) && prepOK(op)
 //@   requires[C14] owned(m.buf)
-//@   atcall[C01] (connectrpc.com/vanguard.Codec).Unmarshal: arg(0) == ite(m.isRequest, op.client.codec, op.server.codec)
+//@   atcall[C01] (vanguard.Codec).Unmarshal: arg(0) == ite(m.isRequest, op.client.codec, op.server.codec)
+//@   track unm = (vanguard.Codec).Unmarshal
+//@   track prepc = (vanguard.clientBodyPreparer).prepareUnmarshalledRequest
+//@   track preps = (vanguard.serverBodyPreparer).prepareUnmarshalledResponse
+//@   ensures[C01] unm + prepc + preps == 1
+//@   ensures[C01] prepc == ite(m.isRequest && op.clientReqNeedsPrep, 1, 0) && preps == ite(!m.isRequest && op.serverRespNeedsPrep, 1, 0)
 //@   ensures m.buf == old(m.buf) && m.stage == old(m.stage)
 //@   modifies #LIB
 
@@ -387,7 +397,11 @@ package vanguard
 //@   requires m != nil && m.buf != nil && validOp(op) && prepOK(op)
 //@   requires[C14] owned(m.buf)
 //@   ensures[C14] owned(m.buf) && (m.buf != old(m.buf) ==> !owned(old(m.buf)) && !wasOwned(m.buf))
-//@   atcall[C01] (connectrpc.com/vanguard.Codec).MarshalAppend: arg(0) == ite(m.isRequest, op.server.codec, op.client.codec)
+//@   atcall[C01] (vanguard.Codec).MarshalAppend: arg(0) == ite(m.isRequest, op.server.codec, op.client.codec)
+//@   track mar = (vanguard.Codec).MarshalAppend
+//@   track prepq = (vanguard.serverBodyPreparer).prepareMarshalledRequest
+//@   track prepr = (vanguard.clientBodyPreparer).prepareMarshalledResponse
+//@   ensures[C01] mar + prepq + prepr == 1
 //@   ensures[C09] m.buf != nil && m.stage == old(m.stage)
 //@   ensures[C09] err != nil ==> m.buf == old(m.buf)
 //@   modifies m.buf, owned(m.buf), blen(m.buf), #LIB
@@ -428,7 +442,7 @@ package vanguard
 //@ |    w.buffer == w.msg.buf && owned(w.buffer)
 //@ | && (w.expectingBytes == -1 || (w.expectingBytes >= 0 && blen(w.buffer) <= w.expectingBytes && w.rw.op.serverEnveloper != nil))
 //@ | && (w.writingEnvelope ==> w.expectingBytes == 5 && blen(w.buffer) < 5)
-//@ | && (w.expectingBytes == -1 ==> w.rw.op.serverEnveloper == nil))
+//@ | && (w.expectingBytes == -1 ==> w.rw.op.serverEnveloper == nil && blen(w.buffer) <= limitOf(w.rw.op)))
 
 //@ func (*transformingWriter).reset
 //@   opt inline
@@ -443,6 +457,7 @@ package vanguard
 //@   step rwStep(w.rw)
 //@   track flushed = (*responseWriter).flushMessage
 //@   atcall[C03] (io.Writer).Write: !w.rw.endWritten
+//@   atcall[C01,C02,C03] (vanguard.envelopedProtocolHandler).encodeEnvelope: arg(1).compressed == (w.msg.wasCompressed && w.rw.op.client.respCompression != nil) && !arg(1).trailer && arg(1).length == blen(w.msg.buf) && w.msg.stage == 3
 //@   ensures[C16] err == nil && !w.latestEnvelope.trailer ==> flushed == 1
 //@   ensures[C03] err == nil && !w.latestEnvelope.trailer ==> !w.rw.endWritten
 //@   ensures (w.buffer != nil ==> w.buffer != w.rw.buf) && (w.msg.buf != nil ==> w.msg.buf != w.rw.buf)
@@ -586,6 +601,8 @@ package vanguard
 //@   dispatch (io.Reader).Read: none
 //@   requires validOp(o) && prepOK(o) && msg != nil && readerOK(reader) && (rw != nil ==> rwInv(rw) && rw.op == o)
 //@   requires[C14] ownMsg(msg)
+//@   track resets = (*message).reset
+//@   ensures[C09] o.clientEnveloper != nil && errIs(err, io.EOF) ==> resets == 0
 //@   ensures[C09] err == nil ==> msg.stage == 1 && msg.buf != nil
 //@   ensures[C09,C10] err == nil ==> blen(msg.buf) <= limitOf(o)
 //@   ensures[C09] err == nil && o.clientEnveloper == nil && o.contentLen >= 0 ==> blen(msg.buf) <= o.contentLen
@@ -663,3 +680,26 @@ package vanguard
 //@ func (*transformingReader).Close
 //@   requires validTR(r)
 //@   ensures r.err != nil
+
+// ------------------------------------------------------------------------------------------------
+// C12: Connect and REST timeouts
+
+//@ func connectEncodeTimeout
+//@   ensures[C12] timeout >= 0 ==> isdigits(result) && len(result) >= 1 && len(result) <= 10
+//@   ensures[C12] timeout >= 0 ==> decval(result) * 1000000 <= timeout
+//@   ensures[C12] timeout >= 0 && timeout < 10000000000 * 1000000 ==> timeout - decval(result) * 1000000 < 1000000
+//@   ensures[C12] timeout >= 10000000000 * 1000000 ==> result == "9999999999"
+
+//@ func connectExtractTimeout
+//@   opt arith=wrap
+//@   requires headers != nil && meta != nil
+//@   ensures[C12] old(hdr(headers, "Connect-Timeout-Ms")) == "" ==> err == nil && meta.hasTimeout == old(meta.hasTimeout) && meta.timeout == old(meta.timeout)
+//@   ensures[C12] err == nil && old(hdr(headers, "Connect-Timeout-Ms")) != "" ==> meta.hasTimeout && meta.timeout >= 0
+//@   ensures[C12] err == nil && meta.hasTimeout && len(old(hdr(headers, "Connect-Timeout-Ms"))) >= 1 && len(old(hdr(headers, "Connect-Timeout-Ms"))) <= 18 && isdigits(old(hdr(headers, "Connect-Timeout-Ms"))) ==> meta.timeout == min(decval(old(hdr(headers, "Connect-Timeout-Ms"))) * 1000000, 9223372036854775807)
+//@   ensures[C12] isdigits(old(hdr(headers, "Connect-Timeout-Ms"))) && len(old(hdr(headers, "Connect-Timeout-Ms"))) >= 1 && len(old(hdr(headers, "Connect-Timeout-Ms"))) <= 10 ==> err == nil
+//@   ensures[C02] !hdrHas(headers, "Connect-Timeout-Ms")
+//@   loop 1 invariant[C12] 0 <= rangeiter && rangeiter < len(str) && len(str) <= 10 && str == old(hdr(headers, "Connect-Timeout-Ms")) && str != ""
+//@   loop 1 invariant[C12] forall j in [0, rangeiter): '0' <= str[j] && str[j] <= '9'
+//@   loop 1 invariant meta.hasTimeout == old(meta.hasTimeout) && meta.timeout == old(meta.timeout) && !hdrHas(headers, "Connect-Timeout-Ms")
+//@   loop 1 decreases len(str) - rangeiter
+//@   ensures[C12] err == nil && old(hdr(headers, "Connect-Timeout-Ms")) != "" ==> isdigits(old(hdr(headers, "Connect-Timeout-Ms"))) && len(old(hdr(headers, "Connect-Timeout-Ms"))) <= 10
